@@ -123,10 +123,12 @@ def _run_chunk(cases):
     return out
 
 
-def gen_cases(ctx, scale=1.0):
+BATCH = 2500
+
+
+def gen_cases(ctx, n_docs, small_scope=True):
     r = ctx.rng
     cases = []
-    n_docs = int(ctx.n(2500, 150000) * scale)
     for i in range(n_docs):
         k = r.random()
         opts = {}
@@ -172,6 +174,8 @@ def gen_cases(ctx, scale=1.0):
             if r.random() < 0.3:
                 cases.append({'op': 'roundtrip', 'x': y.hex(), 'validate': r.random() < 0.7, 'kind': 'mut/' + mk,
                               'feats': []})
+    if not small_scope:
+        return cases
     # non-dict top-level values and tiny documents (exhaustive over a small alphabet)
     small = [b'', b'e', b'de', b'le', b'i0e', b'0:', b'd0:0:e', b'd1:ae', b'd4:infodee', b'd4:infoi1ee',
              b'd4:info0:e', b'd4:infod6:pieces0:ee', b'd13:creation datei0e4:infodee',
@@ -306,15 +310,25 @@ def run(ctx, drv):
         'SHA-1 is a parameter: the model returns the bytes that are hashed, the harness applies hashlib.sha1',
     ]
     corpus = _load_corpus(ctx)
-    cases = corpus + gen_cases(ctx)
-    evaluate(ctx, drv, cases)
+    total = ctx.n(2500, 40000)
+    first = True
+    while total > 0:
+        n = min(BATCH, total)
+        total -= n
+        evaluate(ctx, drv, (corpus if first else []) + gen_cases(ctx, n, small_scope=first))
+        first = False
+        if ctx.violations:
+            break
     ctx.exhaustive = False
     ctx.notes['exhaustive_scope'] = ('every byte string of length <= %d over {d,l,e,i,1,0,:,-,a} through the '
                                      'parser model' % (5 if ctx.thorough else 4))
 
 
 def search(ctx, drv):
-    evaluate(ctx, drv, gen_cases(ctx, scale=2.0))
+    for _ in range(2):
+        evaluate(ctx, drv, gen_cases(ctx, ctx.n(2500, 5000), small_scope=False))
+        if ctx.violations:
+            break
 
 
 def replay(ctx, drv, rp):
